@@ -164,7 +164,7 @@ def streams(ctx):
                 lines = [c["req"] for c in cs[a:b]]
                 ml, exp, idx = to_model_lines(lines, impl[a:b])
                 for l, e, i in zip(ml, exp, idx):
-                    der.append({"req": l, "index": a + i, "check": (lambda out, e=e: None if out == canon_msgs(e) else ("model", canon_msgs(e)))})
+                    der.append({"req": l, "index": a + i, "check": (lambda out, e=e: None if canon_msgs(out) == canon_msgs(e) else ("model", canon_msgs(e)))})
                 last = impl[b - 1]
                 if ans[0] == "W1":
                     ok = vlib.hx("Update available: 4.17.20 -> 5.0.0-beta.1") in last
@@ -178,7 +178,7 @@ def streams(ctx):
             lines = [c["req"] for c in cs[a:b]]
             ml, exp, idx = to_model_lines(lines, impl[a:b])
             for l, e, i in zip(ml, exp, idx):
-                der.append({"req": l, "index": a + i, "check": (lambda out, e=e: None if out == canon_msgs(e) else ("model", canon_msgs(e)))})
+                der.append({"req": l, "index": a + i, "check": (lambda out, e=e: None if canon_msgs(out) == canon_msgs(e) else ("model", canon_msgs(e)))})
             # the property on the implementation
             disabled = set()
             malformed = False
